@@ -824,7 +824,12 @@ func (m *M) HTTP(b, route string, a Args, fault *world.Fault) *world.Result {
 	rt := route
 	switch route {
 	case "prot":
-		rt = fmt.Sprintf("prot:%d:%d:%d:%s", a.Reqs, a.Fail, a.MP, wire.Hex(fmt.Sprintf("/p/%d/%d/%d%s", a.Reqs, a.Fail, a.MP, a.Path)))
+		// the middleware sees the decoded path (r.URL.Path)
+		dec := fmt.Sprintf("/p/%d/%d/%d%s", a.Reqs, a.Fail, a.MP, a.Path)
+		if u, err := url.Parse(dec); err == nil {
+			dec = u.Path
+		}
+		rt = fmt.Sprintf("prot:%d:%d:%d:%s", a.Reqs, a.Fail, a.MP, wire.Hex(dec))
 	case "vstart", "vend":
 		rt = route + ":" + a.Kind
 	case "logout":
@@ -981,4 +986,16 @@ func (m *M) SeedUser(pid, pw string, confirmed bool, attempts int, last, locked 
 		kv = append(kv, "rec="+hexList(rec))
 	}
 	m.Out.Add("m seed "+strings.Join(kv, " "), "ok "+m.StoreLine())
+}
+
+// SetSession replaces a browser's session jar (harness shortcut, same op for the model).
+func (m *M) SetSession(b string, sess map[string]string) {
+	br := m.W.B(b)
+	br.Sess = map[string]string{}
+	var kv []string
+	for _, k := range wire.SortedKeys(sess) {
+		br.Sess[k] = sess[k]
+		kv = append(kv, keyName(k)+"="+m.sessVal(k, sess[k]))
+	}
+	m.Out.Add(strings.TrimRight("m setsess "+b+" "+strings.Join(kv, " "), " "), "ok "+m.StoreLine())
 }
